@@ -141,15 +141,28 @@ func ZZC17Batcher() {
 }
 
 // ZZC17Binding: the signed message binds every field of the snapshot.
-var zzDigests = [][]byte{{}, {1}, {1, 2}, {12}, {1, 2, 3}, {0}}
+var zzDigests = [][]byte{{}, {1}, {1, 2}, {12}, {1, 2, 3}, {0}, zzLong(-1), zzLong(0), zzLong(7), zzLong(8), zzLong(31)}
+
+// zzLong: a 32-byte digest; flip >= 0 changes one byte at that offset (digests that differ
+// only far from the start must still sign different messages)
+func zzLong(flip int) []byte {
+	d := make([]byte, 32)
+	for i := range d {
+		d[i] = 0x11
+	}
+	if flip >= 0 {
+		d[flip] = 0x99
+	}
+	return d
+}
 
 func ZZC17Binding() {
 	s := &Sender{signer: zzSigner{}, log: log.L()}
 	mk := func(tag string) *protocol.Snapshot {
 		return &protocol.Snapshot{
-			EventDigest:   zzDigests[rt.Choose(tag+"-event", len(zzDigests))],
-			HistoryDigest: zzDigests[rt.Choose(tag+"-history", len(zzDigests))],
-			HyperDigest:   zzDigests[rt.Choose(tag+"-hyper", len(zzDigests))],
+			EventDigest:   zzDigests[rt.Choose(tag+"-event", 6)],
+			HistoryDigest: zzDigests[rt.Choose(tag+"-history", 6)],
+			HyperDigest:   zzDigests[rt.Choose(tag+"-hyper", 6)],
 			Version:       []uint64{0, 1, 12, 2}[rt.Choose(tag+"-version", 4)],
 		}
 	}
@@ -162,6 +175,36 @@ func ZZC17Binding() {
 		rt.Assert(string(sx.Signature) != string(sy.Signature), "different-snapshots-sign-different-messages")
 	} else {
 		rt.Assert(string(sx.Signature) == string(sy.Signature), "equal-snapshots-sign-the-same-message")
+	}
+}
+
+// ZZC17BindingLong: the same for digests of the real length (32 bytes): two snapshots that
+// differ in one digest, at any of several byte offsets (first, 8th, 9th, last), sign different messages.
+func ZZC17BindingLong() {
+	s := &Sender{signer: zzSigner{}, log: log.L()}
+	long := zzDigests[6:]
+	x := &protocol.Snapshot{
+		EventDigest:   long[rt.Choose("event", len(long))],
+		HistoryDigest: long[rt.Choose("history", len(long))],
+		HyperDigest:   long[rt.Choose("hyper", len(long))],
+		Version:       []uint64{0, 1 << 40}[rt.Choose("version", 2)],
+	}
+	y := *x
+	alt := long[rt.Choose("other-value", len(long))]
+	switch rt.Choose("field", 3) {
+	case 0:
+		y.EventDigest = alt
+	case 1:
+		y.HistoryDigest = alt
+	case 2:
+		y.HyperDigest = alt
+	}
+	same := string(x.EventDigest) == string(y.EventDigest) && string(x.HistoryDigest) == string(y.HistoryDigest) && string(x.HyperDigest) == string(y.HyperDigest)
+	sx, err1 := s.doSign(x)
+	sy, err2 := s.doSign(&y)
+	rt.Assert(err1 == nil && err2 == nil, "signs")
+	if !same {
+		rt.Assert(string(sx.Signature) != string(sy.Signature), "different-long-digests-sign-different-messages")
 	}
 }
 
